@@ -42,10 +42,74 @@ def scenarios(ctx):
     return out
 
 
+def reset_scenarios(ctx):
+    """The real `ZBOSS.reset()` with the link lost at every point of it (implementation-side observation):
+    the application is not told while the reset is in progress, exactly once afterwards."""
+    import hostworld
+    import streams
+    K = hostworld.kinds()
+    for nreq in (0, 1, 2):
+        for point in ("before-ack", "after-ack", "after-ack-timeout", "none-then-after"):
+            for close_too in (False, True):
+                w = hostworld.HostWorld()
+                try:
+                    for i in range(1, nreq + 1):
+                        mk, Rsp, kw = K["PZ"[i - 1]]
+                        w.start(i, mk(i), 3.0 + i)
+                        w.rx(streams.ack(w.p._pack_seq))
+                    w.start_reset()
+                    during = []            # (what, number of reports) while reset() is running
+                    if point == "before-ack":
+                        m = w.mark(); w.lost(); during.append(("loss before the reset frame is acknowledged", w.log[m:].count("APPLOST")))
+                    else:
+                        if point == "after-ack-timeout":
+                            w.tick()       # the acknowledgement wait of the reset frame expires
+                        else:
+                            w.rx(streams.ack(w.p._pack_seq))
+                        if point != "none-then-after":
+                            m = w.mark(); w.lost(); during.append(("loss while reset() awaits the disconnect", w.log[m:].count("APPLOST")))
+                    if close_too and not w.reset_task.done():
+                        m = w.mark(); w.close(); during.append(("close() during the reset", w.log[m:].count("APPLOST")))
+                    for _ in range(40):
+                        if w.reset_task.done():
+                            break
+                        m = w.mark()
+                        if not w.tick():
+                            break
+                        during.append(("timer during the reset", w.log[m:].count("APPLOST")))
+                    reset_done = w.reset_task.done()
+                    after = None
+                    if reset_done and w.api._uart is not None and w.api._app is not None:
+                        m = w.mark(); w.lost(); after = w.log[m:].count("APPLOST")
+                    for _ in range(40):
+                        if not any(not tk.done() for tk in w.tasks.values()) or not w.tick():
+                            break
+                    stranded = [i for i, tk in w.tasks.items() if not tk.done()]
+                    inp = dict(requests_in_flight=nreq, loss_point=point, close_during_reset=close_too)
+                    ctx.case(("reset", nreq, point, close_too), nontrivial=True,
+                             sample=dict(inp, reports_during=[n for _, n in during], report_after=after, log=[e[:24] for e in w.log[-8:]]))
+                    ctx.count("real-reset:" + point)
+                    for what, n in during:
+                        if n:
+                            ctx.counterexample("loss-reported-during-reset", dict(inp, at=what), 0, n,
+                                               "the application is told about a connection loss while a deliberate NCP reset is in progress")
+                            break
+                    if not reset_done:
+                        ctx.counterexample("reset-never-ends", inp, "reset() returns", w.log[-6:], "reset() does not terminate")
+                    if after is not None and after != 1:
+                        ctx.counterexample("loss-report", dict(inp, at="loss after the reset has finished"), 1, after,
+                                           "connection loss after a finished reset is not reported exactly once")
+                    if stranded:
+                        ctx.counterexample("never-terminates", inp, "all requests end by their timeout", stranded, "a request never terminates")
+                finally:
+                    w.shutdown()
+
+
 def run(ctx):
     ctx.rule = ("(a) systematic: 6 base scenarios (1..3 requests: queued, awaiting transmit slot, awaiting ACK, awaiting "
                 "response) x every quiescent point x {close, loss} x {reset in progress or not}, then a new request and "
-                "repeated close; (b) random schedules with frequent close / loss / reset; non-trivial = all")
+                "repeated close; (a') the real ZBOSS.reset() x 0..2 requests in flight x loss before / after the ACK of the reset "
+                "frame / after its ACK wait expired / after the reset finished x close() during the reset; (b) random schedules with frequent close / loss / reset; non-trivial = all")
     r = ctx.rng
     traces = []
     for s in scenarios(ctx):
@@ -55,6 +119,7 @@ def run(ctx):
         hostdrive.monitor_c20(ctx, tr)
         traces.append(tr)
     hostdrive.compare(ctx, traces)
+    reset_scenarios(ctx)
     run_generic(ctx, hostdrive.monitor_c20, ctx.scale(100, 2500), allow_reset=True,
                 weights=dict(start=5, ack=4, rsp=2, tick=2, cancel=0.5, badack=0.5, close=1.2, lost=0.8, reset=0.4))
 
